@@ -65,8 +65,8 @@ func (a *Asm) PushBytes(d []byte) *Asm {
 	return a
 }
 
-func (a *Asm) Push(v *big.Int) *Asm  { return a.PushBytes(v.Bytes()) }
-func (a *Asm) PushU(v uint64) *Asm   { return a.Push(new(big.Int).SetUint64(v)) }
+func (a *Asm) Push(v *big.Int) *Asm           { return a.PushBytes(v.Bytes()) }
+func (a *Asm) PushU(v uint64) *Asm            { return a.Push(new(big.Int).SetUint64(v)) }
 func (a *Asm) PushAddr(x common.Address) *Asm { return a.PushBytes(x[:]) }
 
 // StoreCode puts code (<= 32 bytes) at memory offset 0 (left aligned), so that
@@ -82,4 +82,4 @@ func (a *Asm) StoreCode(code []byte) *Asm {
 
 // Return returns memory [off, off+size).
 func (a *Asm) Return(off, size uint64) *Asm { return a.PushU(size).PushU(off).Op(opRETURN) }
-func (a *Asm) Revert() *Asm                  { return a.PushU(0).PushU(0).Op(opREVERT) }
+func (a *Asm) Revert() *Asm                 { return a.PushU(0).PushU(0).Op(opREVERT) }
